@@ -356,9 +356,296 @@ theorem find_grid_deepest (g : Ntv2 R) (lon lat : R) (fuel : Nat) (queue : List 
 
 end subgrids
 
+
+/-! ### NTv2: the walk ends
+
+The Rust loop `while let Some(grid_id) = queue.pop()` has no iteration allowance; the model's has
+one (`subgrids.length + 1`).  For every hierarchy the decoder accepts — sub-grids in any order,
+children before parents, parents that do not exist, cycles among sub-grids that cannot be reached
+from the roots — the allowance is never used up: every sub-grid is popped at most once. -/
+
+section termination
+variable {R : Type} [Scalar R]
+open Ntv2 Text
+
+/-- the sub-grid names, in file order -/
+def names (g : Ntv2 R) : List Str := g.subgrids.map (·.1)
+
+/-- what `Ntv2Grid::new` establishes about its two tables -/
+structure WF (g : Ntv2 R) : Prop where
+  namesNodup : (names g).Nodup
+  kidsNodup : ∀ e ∈ g.children, e.2.Nodup
+  oneParent : ∀ e1 ∈ g.children, ∀ e2 ∈ g.children, ∀ n, n ∈ e1.2 → n ∈ e2.2 → e1.1 = e2.1
+  kidsNamed : ∀ e ∈ g.children, ∀ n ∈ e.2, n ∈ names g ∧ n ≠ S "NONE"
+
+theorem lookup_of_named (g : Ntv2 R) (n : Str) (h : n ∈ names g) : ∃ cur, lookupGrid g n = some cur := by
+  unfold names at h
+  obtain ⟨e, he, rfl⟩ := List.mem_map.mp h
+  unfold lookupGrid
+  cases hf : g.subgrids.find? (·.1 == e.1) with
+  | none =>
+    have := List.find?_eq_none.mp hf e he
+    simp at this
+  | some x => exact ⟨x.2, rfl⟩
+
+theorem childrenOf_mem (g : Ntv2 R) (k : Str) (ch : List Str) (h : childrenOf g k = some ch) :
+    ∃ e ∈ g.children, e.1 = k ∧ e.2 = ch := by
+  unfold childrenOf at h
+  cases hf : g.children.find? (·.1 == k) with
+  | none => simp [hf] at h
+  | some x =>
+    simp only [hf, Option.map_some, Option.some.injEq] at h
+    exact ⟨x, List.mem_of_find?_eq_some hf, by simpa using List.find?_some hf, h⟩
+
+/-- the state of the walk: `P` are the sub-grids popped so far -/
+structure WalkInv (g : Ntv2 R) (P queue : List Str) (current : Str) : Prop where
+  pNodup : P.Nodup
+  pNamed : ∀ n ∈ P, n ∈ names g
+  qNodup : queue.Nodup
+  qFresh : ∀ q ∈ queue, q ∉ P
+  qKids : ∀ q ∈ queue, ∃ e ∈ g.children, e.1 = current ∧ q ∈ e.2
+  curPopped : current ∈ P ∨ current = S "NONE"
+  parents : ∀ e ∈ g.children, ∀ n ∈ e.2, n ∈ P → e.1 ∈ P ∨ e.1 = S "NONE"
+
+theorem popped_le (g : Ntv2 R) (P : List Str) (h1 : P.Nodup) (h2 : ∀ n ∈ P, n ∈ names g) :
+    P.length ≤ (names g).length :=
+  (List.subperm_of_subset h1 h2).length_le
+
+/-- **the walk ends within the allowance** -/
+theorem walk_ends (g : Ntv2 R) (wf : WF g) (lon lat : R) (fuel : Nat) (P queue : List Str) (current : Str)
+    (inv : WalkInv g P queue current) (hfuel : (names g).length + 1 ≤ fuel + P.length) :
+    ∃ r, findLoopF g lon lat fuel queue current = some r := by
+  induction fuel generalizing P queue current with
+  | zero =>
+    have := popped_le g P inv.pNodup inv.pNamed
+    omega
+  | succ fuel ih =>
+    unfold findLoopF
+    cases hq : queue.getLast? with
+    | none => exact ⟨current, rfl⟩
+    | some gridId =>
+      simp only []
+      have hsplit : queue = queue.dropLast ++ [gridId] := (List.dropLast_append_getLast? gridId hq).symm
+      have hmem : gridId ∈ queue := by rw [hsplit]; simp
+      obtain ⟨e0, he0, hk0, hin0⟩ := inv.qKids gridId hmem
+      have hnamed := wf.kidsNamed e0 he0 gridId hin0
+      obtain ⟨cur, hl⟩ := lookup_of_named g gridId hnamed.1
+      have hfresh : gridId ∉ P := inv.qFresh gridId hmem
+      have hnd : (queue.dropLast ++ [gridId]).Nodup := hsplit ▸ inv.qNodup
+      -- what holds of the popped set after this iteration, wherever the walk goes
+      have pNodup' : (gridId :: P).Nodup := List.nodup_cons.mpr ⟨hfresh, inv.pNodup⟩
+      have pNamed' : ∀ n ∈ gridId :: P, n ∈ names g := by
+        intro n hn
+        rcases List.mem_cons.mp hn with rfl | hn
+        · exact hnamed.1
+        · exact inv.pNamed n hn
+      have curPopped' : current ∈ gridId :: P ∨ current = S "NONE" := by
+        rcases inv.curPopped with h | h
+        · left; exact List.mem_cons_of_mem _ h
+        · right; exact h
+      have parents' : ∀ e ∈ g.children, ∀ n ∈ e.2, n ∈ gridId :: P → e.1 ∈ gridId :: P ∨ e.1 = S "NONE" := by
+        intro e he n hn hp
+        rcases List.mem_cons.mp hp with rfl | hp
+        · have := wf.oneParent e he e0 he0 n hn hin0
+          rw [this, hk0]; exact curPopped'
+        · rcases inv.parents e he n hn hp with h | h
+          · left; exact List.mem_cons_of_mem _ h
+          · right; exact h
+      have hfuel' : (names g).length + 1 ≤ fuel + (gridId :: P).length := by
+        simp only [List.length_cons]; omega
+      -- the rest of the queue
+      have skipInv : WalkInv g (gridId :: P) queue.dropLast current := by
+        refine ⟨pNodup', pNamed', (List.nodup_append.mp hnd).1, ?_, ?_, curPopped', parents'⟩
+        · intro q hqm hp
+          rcases List.mem_cons.mp hp with rfl | hp
+          · exact (List.nodup_append.mp hnd).2.2 q hqm q (by simp) rfl
+          · exact inv.qFresh q (by rw [hsplit]; exact List.mem_append_left _ hqm) hp
+        · intro q hqm
+          exact inv.qKids q (by rw [hsplit]; exact List.mem_append_left _ hqm)
+      simp only [hl]
+      split
+      · split
+        · exact ih _ _ _ skipInv hfuel'
+        · cases hc : childrenOf g gridId with
+          | none => exact ⟨gridId, rfl⟩
+          | some ch =>
+            simp only []
+            obtain ⟨e1, he1, hk1, hch1⟩ := childrenOf_mem g gridId ch hc
+            have downInv : WalkInv g (gridId :: P) ch gridId := by
+              refine ⟨pNodup', pNamed', hch1 ▸ wf.kidsNodup e1 he1, ?_, ?_, Or.inl (by simp), parents'⟩
+              · intro q hqm hp
+                have hq1 : q ∈ e1.2 := hch1 ▸ hqm
+                rcases List.mem_cons.mp hp with rfl | hp
+                · -- the sub-grid would be its own parent
+                  have := wf.oneParent e1 he1 e0 he0 q hq1 hin0
+                  rw [hk1, hk0] at this
+                  rcases inv.curPopped with h | h
+                  · exact hfresh (this ▸ h)
+                  · exact hnamed.2 (this ▸ h)
+                · rcases inv.parents e1 he1 q hq1 hp with h | h
+                  · exact hfresh (hk1 ▸ h)
+                  · exact hnamed.2 (hk1 ▸ h)
+              · intro q hqm
+                exact ⟨e1, he1, hk1, hch1 ▸ hqm⟩
+            exact ih _ _ _ downInv hfuel'
+      · exact ih _ _ _ skipInv hfuel'
+
+/-- an entry of the table after `lookup_table.entry(parent).or_insert_with(Vec::new).push(name)`:
+an old entry, an old entry under `parent` with `name` appended, or the new entry -/
+theorem mem_pushChild (t : List (Str × List Str)) (parent name : Str) (e : Str × List Str)
+    (h : e ∈ pushChild t parent name) :
+    ∃ old : List Str, (old = [] ∨ ∃ e0 ∈ t, e0.1 = e.1 ∧ e0.2 = old) ∧
+      (e.2 = old ∨ (e.2 = old ++ [name] ∧ e.1 = parent)) := by
+  unfold pushChild at h
+  split at h
+  · obtain ⟨e0, he0, rfl⟩ := List.mem_map.mp h
+    by_cases hk : (e0.1 == parent) = true
+    · simp only [hk, if_true]
+      exact ⟨e0.2, Or.inr ⟨e0, he0, rfl, rfl⟩, Or.inr ⟨rfl, by simpa using hk⟩⟩
+    · simp only [hk]
+      exact ⟨e0.2, Or.inr ⟨e0, he0, rfl, rfl⟩, Or.inl rfl⟩
+  · rcases List.mem_append.mp h with h | h
+    · exact ⟨e.2, Or.inr ⟨e, h, rfl, rfl⟩, Or.inl rfl⟩
+    · simp only [List.mem_cons, List.not_mem_nil, or_false] at h
+      subst h
+      exact ⟨[], Or.inl rfl, Or.inr ⟨rfl, rfl⟩⟩
+
+/-- one more sub-grid keeps the tables well formed -/
+theorem wf_push (g : Ntv2 R) (wf : WF g) (name parent : Str) (b : Grid.BaseGrid R)
+    (hnone : name ≠ S "NONE") (hnew : name ∉ names g) :
+    WF { subgrids := g.subgrids ++ [(name, b)], children := pushChild g.children parent name } := by
+  have hnames : names ({ subgrids := g.subgrids ++ [(name, b)], children := pushChild g.children parent name } : Ntv2 R)
+      = names g ++ [name] := by simp [names]
+  -- `name` is in no list of the old table
+  have hfresh : ∀ e0 ∈ g.children, name ∉ e0.2 := fun e0 he0 hin => hnew (wf.kidsNamed e0 he0 name hin).1
+  -- membership in a list of the new table
+  have hmem : ∀ e ∈ pushChild g.children parent name, ∀ n ∈ e.2,
+      (∃ e0 ∈ g.children, e0.1 = e.1 ∧ n ∈ e0.2) ∨ (n = name ∧ e.1 = parent) := by
+    intro e he n hn
+    obtain ⟨old, hold, hnew'⟩ := mem_pushChild _ _ _ e he
+    rcases hnew' with h | ⟨h, hp⟩
+    · rcases hold with rfl | ⟨e0, he0, hk, rfl⟩
+      · rw [h] at hn; cases hn
+      · left; exact ⟨e0, he0, hk, h ▸ hn⟩
+    · rw [h] at hn
+      rcases List.mem_append.mp hn with hn | hn
+      · rcases hold with rfl | ⟨e0, he0, hk, rfl⟩
+        · cases hn
+        · left; exact ⟨e0, he0, hk, hn⟩
+      · right; exact ⟨by simpa using hn, hp⟩
+  refine ⟨?_, ?_, ?_, ?_⟩
+  · rw [hnames]
+    refine List.nodup_append.mpr ⟨wf.namesNodup, by simp, ?_⟩
+    intro a ha c hc hac
+    simp only [List.mem_cons, List.not_mem_nil, or_false] at hc
+    subst hc; subst hac; exact hnew ha
+  · intro e he
+    obtain ⟨old, hold, hnew'⟩ := mem_pushChild _ _ _ e he
+    have hold_nd : old.Nodup ∧ name ∉ old := by
+      rcases hold with rfl | ⟨e0, he0, _, rfl⟩
+      · simp
+      · exact ⟨wf.kidsNodup e0 he0, hfresh e0 he0⟩
+    rcases hnew' with h | ⟨h, _⟩
+    · rw [h]; exact hold_nd.1
+    · rw [h]
+      refine List.nodup_append.mpr ⟨hold_nd.1, by simp, ?_⟩
+      intro a ha c hc hac
+      simp only [List.mem_cons, List.not_mem_nil, or_false] at hc
+      subst hc; subst hac; exact hold_nd.2 ha
+  · intro e1 he1 e2 he2 n hn1 hn2
+    rcases hmem e1 he1 n hn1 with ⟨a, ha, hka, hna⟩ | ⟨hn, hp1⟩
+    · rcases hmem e2 he2 n hn2 with ⟨c, hc, hkc, hnc⟩ | ⟨hn, _⟩
+      · rw [← hka, ← hkc]; exact wf.oneParent a ha c hc n hna hnc
+      · exact absurd (hn ▸ hna) (hfresh a ha)
+    · rcases hmem e2 he2 n hn2 with ⟨c, hc, _, hnc⟩ | ⟨_, hp2⟩
+      · exact absurd (hn ▸ hnc) (hfresh c hc)
+      · rw [hp1, hp2]
+  · intro e he n hn
+    rw [hnames]
+    rcases hmem e he n hn with ⟨a, ha, _, hna⟩ | ⟨rfl, _⟩
+    · have := wf.kidsNamed a ha n hna
+      exact ⟨List.mem_append_left _ this.1, this.2⟩
+    · exact ⟨by simp, hnone⟩
+
+/-- the loop over the sub-grids of `Ntv2Grid::new` keeps the tables well formed -/
+theorem readSubgrids_wf (nm : Num R) (p : Parser) (k off : Nat) (acc g : Ntv2 R) (wf : WF acc)
+    (h : readSubgrids nm p k off acc = .ok g) : WF g := by
+  induction k generalizing off acc with
+  | zero => simp only [readSubgrids] at h; cases h; exact wf
+  | succ k ih =>
+    unfold readSubgrids at h
+    split at h
+    · cases h
+    · cases hs : subgrid nm p off with
+      | error e => simp [hs] at h
+      | ok r =>
+        obtain ⟨name, parent, b⟩ := r
+        simp only [hs] at h
+        split at h
+        · cases h
+        · rename_i hcond
+          simp only [Bool.or_eq_true, not_or] at hcond
+          have h1 : name ≠ S "NONE" := by simpa using hcond.1
+          have h2 : name ∉ names acc := by
+            intro hin
+            obtain ⟨e, he, rfl⟩ := List.mem_map.mp hin
+            exact hcond.2 (List.any_eq_true.mpr ⟨e, he, by simp⟩)
+          exact ih _ _ (wf_push acc wf name parent b h1 h2) h
+
+/-- **every hierarchy the decoder accepts is well formed** -/
+theorem decode_wf (nm : Num R) (buf : Bytes) (g : Ntv2 R) (h : decode nm buf = .ok g) : WF g := by
+  unfold decode at h
+  split at h; · cases h
+  simp only [] at h
+  split at h; · cases h
+  split at h; · cases h
+  split at h; · cases h
+  split at h
+  · cases h
+  · rename_i g' hr
+    split at h
+    · cases h
+      refine readSubgrids_wf nm _ _ _ _ _ ⟨?_, ?_, ?_, ?_⟩ hr <;> simp [names]
+    · cases h
+
+/-- **`find_grid`'s loop ends for every file the decoder accepts and every point**, within the
+allowance the model gives it; with `findLoopF_eq` and `find_grid_deepest` the sub-grid the model
+uses is then the deepest one that takes the point -/
+theorem find_grid_ends (nm : Num R) (buf : Bytes) (g : Ntv2 R) (h : decode nm buf = .ok g) (lon lat : R) :
+    ∃ r, findLoopF g lon lat (g.subgrids.length + 1) ((childrenOf g (S "NONE")).getD []) (S "NONE") = some r := by
+  have wf := decode_wf nm buf g h
+  apply walk_ends g wf lon lat _ [] _ _ _ (by simp [names])
+  cases hc : childrenOf g (S "NONE") with
+  | none => exact ⟨by simp, by simp, by simp, by simp, by simp, Or.inr rfl, by simp⟩
+  | some ch =>
+    obtain ⟨e, he, hk, hch⟩ := childrenOf_mem g _ ch hc
+    refine ⟨by simp, by simp, ?_, by simp, ?_, Or.inr rfl, by simp⟩
+    · simpa [hch] using wf.kidsNodup e he
+    · intro q hq
+      exact ⟨e, he, hk, hch ▸ (by simpa using hq)⟩
+
+/-- the model's `find_grid` on a decoded file: the walk's result is the deepest sub-grid taking the point -/
+theorem find_grid_decoded (nm : Num R) (buf : Bytes) (g : Ntv2 R) (h : decode nm buf = .ok g) (lon lat : R) :
+    let r := findLoop g lon lat (g.subgrids.length + 1) ((childrenOf g (S "NONE")).getD []) (S "NONE")
+    (r = S "NONE" ∧ ∀ q ∈ (childrenOf g (S "NONE")).getD [], ¬ Takes g lon lat q) ∨
+    (Takes g lon lat r ∧ ∀ chs, childrenOf g r = some chs → ∀ ch ∈ chs, ¬ Takes g lon lat ch) := by
+  obtain ⟨r, hr⟩ := find_grid_ends nm buf g h lon lat
+  have := findLoopF_eq g lon lat _ _ _ r hr
+  simp only [this]
+  exact find_grid_deepest g lon lat _ _ _ r hr
+
+end termination
+
 /-! ### non-vacuity -/
 
 example : (0 : ℝ) ≤ 1 / 2 ∧ (1 / 2 : ℝ) ≤ 1 := by norm_num
+/-- a root with a child, read child first: well formed, as is a table with an unreachable cycle -/
+example (b : BaseGrid ℝ) : WF (⟨[(Text.S "B", b), (Text.S "A", b)],
+    Ntv2.pushChild (Ntv2.pushChild [] (Text.S "A") (Text.S "B")) (Text.S "NONE") (Text.S "A")⟩ : Ntv2.Ntv2 ℝ) := by
+  constructor <;> simp [names, Text.S, Ntv2.pushChild]
+example (b : BaseGrid ℝ) : WF (⟨[(Text.S "R", b), (Text.S "A", b), (Text.S "B", b)],
+    [(Text.S "NONE", [Text.S "R"]), (Text.S "B", [Text.S "A"]), (Text.S "A", [Text.S "B"])]⟩ : Ntv2.Ntv2 ℝ) := by
+  constructor <;> simp [names, Text.S]
 example : bilinear (1 : ℝ) 2 3 4 (1 / 2) (1 / 2) = 5 / 2 := by
   rw [bilinear_eq]; norm_num
 
